@@ -19,9 +19,15 @@ pub open spec fn mu_opt<T>(m: MaybeUninit<T>) -> Option<T> {
     }
 }
 
-/// Ghost flag: the map is inside its own `Drop::drop` (only there may an element
-/// be destroyed while `len` still counts it).
-pub uninterp spec fn destroying<K, V, const N: usize>(pairs: [MaybeUninit<(K, V)>; N]) -> bool;
+/// Ghost mode flag: "the code running is the map's own `Drop::drop`" - only there may an
+/// element be destroyed while `len` still counts it.  An uninterpreted constant: nothing
+/// but a `requires` can establish it, and only `Drop::drop` has that `requires`.
+pub uninterp spec fn destroying_mode() -> bool;
+
+/// the flag as seen from a map's storage (independent of the storage's contents)
+pub open spec fn destroying<K, V, const N: usize>(pairs: [MaybeUninit<(K, V)>; N]) -> bool {
+    destroying_mode()
+}
 
 /// the key type's `==` as a relation
 pub open spec fn eq_rel<K: PartialEq>() -> spec_fn(K, K) -> bool {
@@ -151,6 +157,44 @@ pub assume_specification<T>[ core::mem::drop::<T> ](x: T)
 /// (vstd has no specification for it).
 pub assume_specification<T>[ core::mem::replace::<T> ](dest: &mut T, src: T) -> (r: T)
     ensures *final(dest) == src, r == *old(dest),
+    opens_invariants none
+    no_unwind;
+
+/// ASSUMED: `<[T]>::get_unchecked(i)` returns what `Index::index` returns when the index
+/// is in bounds (its safety precondition, stated with vstd's own `SliceIndexSpec`).
+pub assume_specification<T, I: SliceIndex<[T]>>[ <[T]>::get_unchecked::<I> ](s: &[T], i: I) -> (r: &<I as SliceIndex<[T]>>::Output)
+    requires i.in_bounds(s),
+    ensures i.index_postcondition(s, r),
+    opens_invariants none
+    no_unwind;
+
+/// ASSUMED: `<[T]>::get_unchecked_mut(i)` = `IndexMut::index_mut` when the index is in bounds.
+pub assume_specification<T, I: SliceIndex<[T]>>[ <[T]>::get_unchecked_mut::<I> ](s: &mut [T], i: I) -> (r: &mut <I as SliceIndex<[T]>>::Output)
+    requires i.in_bounds(&*old(s)),
+    ensures i.index_mut_postcondition(&*old(s), &*final(s), &*r, &*final(r)),
+    opens_invariants none
+    no_unwind;
+
+/// ASSUMED: `MaybeUninit::write(val)` initialises the cell with `val` (the previous
+/// content is overwritten without being dropped) and returns a reference to it.
+pub assume_specification<T>[ MaybeUninit::<T>::write ](m: &mut MaybeUninit<T>, val: T) -> (r: &mut T)
+    ensures *r == val, final(m).mem_contents() == MemContents::Init(*final(r)),
+    opens_invariants none
+    no_unwind;
+
+/// ASSUMED: `MaybeUninit::assume_init_drop()` requires an initialised cell, destroys its
+/// content in place and leaves the cell without a live value.  It may unwind.
+pub assume_specification<T>[ MaybeUninit::<T>::assume_init_drop ](m: &mut MaybeUninit<T>)
+    requires old(m).mem_contents().is_init(),
+    ensures final(m).mem_contents() == MemContents::<T>::Uninit,
+    opens_invariants none;
+
+/// ASSUMED: `MaybeUninit::assume_init_read()` requires an initialised cell and returns a
+/// bitwise copy of its content.  (That the cell must afterwards be treated as vacated is
+/// the *ownership discipline*, which is what the contract of `Map::item_read` adds.)
+pub assume_specification<T>[ MaybeUninit::<T>::assume_init_read ](m: &MaybeUninit<T>) -> (r: T)
+    requires m.mem_contents().is_init(),
+    ensures r == m.mem_contents().value(),
     opens_invariants none
     no_unwind;
 
